@@ -147,6 +147,12 @@ Proof.
   - (* OBind *)
     rewrite <- Fw1 in Hpre. destruct (live_some h1 w Hpre) as [cw Hw].
     rewrite (upd_run h1 w _ cw Hw). apply Hst. apply links_upd_stable. intro c. split; [repeat split|reflexivity].
+  - (* OUnbind *)
+    rewrite <- Fw1 in Hpre. destruct (live_some h1 w Hpre) as [cw Hw].
+    rewrite (upd_run h1 w _ cw Hw). apply Hst. apply links_upd_stable. intro c. split; [repeat split|reflexivity].
+  - (* OGeom *)
+    rewrite <- Fw1 in Hpre. destruct (live_some h1 w Hpre) as [cw Hw].
+    unfold bind. rewrite (getw_run h1 w cw Hw). cbn. apply Hst. apply stable_refl.
   - (* ONop *)
     cbn. apply Hst. apply stable_refl.
 Qed.
@@ -512,6 +518,12 @@ Proof.
     assert (Ew : w = root) by (rewrite <- (addr_idx w), E0; reflexivity).
     pose proof (agree_usable_live g h AG 0%nat Hu) as Hl.
     split; [split; [exact Ew|exact Hl]|]. intros h' S. eapply agree_stable; eauto.
+  - destruct (gusable g (idx w)) eqn:Hu; [|discriminate]. inversion Hstep; subst g'.
+    pose proof (agree_usable_live g h AG (idx w) Hu) as Hl. rewrite addr_idx in Hl.
+    split; [exact Hl|]. intros h' S. eapply agree_stable; eauto.
+  - destruct (gusable g (idx w)) eqn:Hu; [|discriminate]. inversion Hstep; subst g'.
+    pose proof (agree_usable_live g h AG (idx w) Hu) as Hl. rewrite addr_idx in Hl.
+    split; [exact Hl|]. intros h' S. eapply agree_stable; eauto.
   - destruct (gusable g (idx w)) eqn:Hu; [|discriminate]. inversion Hstep; subst g'.
     pose proof (agree_usable_live g h AG (idx w) Hu) as Hl. rewrite addr_idx in Hl.
     split; [exact Hl|]. intros h' S. eapply agree_stable; eauto.
